@@ -15,6 +15,7 @@ global size_of usize == 8;  // A6: 64-bit target
 pub mod pre {
 use super::*;
 //@include prelude/path.rs
+//@include prelude/path_ext.rs
 //@include prelude/types.rs
 //@include prelude/dashmap.rs
 //@include prelude/hashset.rs
@@ -39,6 +40,8 @@ use super::*;
 //@include prelude/line_spec.rs
 //@include prelude/analyze_spec.rs
 //@include prelude/visit_spec.rs
+//@include prelude/undecl_avail_spec.rs
+//@include prelude/undecl_spec.rs
 //@include prelude/visit_shims.rs
 //@include prelude/visit_l2.rs
 } // mod pre
@@ -73,29 +76,18 @@ impl FixtureDatabase {
 //@stub ast_helpers extract_docstring
 //@stub ast_helpers extract_return_type
 //@stub ast_helpers find_yield_line
+// delegation to string_utils PROVED in unit position; the string search itself stays abstract (name_pos; Kani)
+//@stub position find_function_name_position
 
     // ---- callee contracts ASSUMED here (environment inputs) ---------------------------------------------------
-    /// string search in the source line (string_utils.rs; bounded checking: Kani): result left abstract
-    #[verifier::external_body]
-    fn find_function_name_position(&self, content: &str, line: usize, func_name: &str) -> (r: (usize, usize))
-        ensures r == name_pos(content@, line, func_name@)
-    { unimplemented!() }
     /// reads editable_install_roots / workspace_root (environment); only called inside vp_is_third_party
     #[verifier::external_body]
     pub(crate) fn is_editable_install_third_party(&self, file_path: &Path) -> (r: bool)
     { unimplemented!() }
-    /// undeclared.rs: walks the function body; its only write is `undeclared_fixtures.entry(file_path).or_default().push(..)`
-    /// (by reading: undeclared.rs:278).  ASSUMED frame: nothing but undeclared_fixtures[file_path] changes.
-    #[verifier::external_body]
-    pub(crate) fn scan_function_body_for_undeclared_fixtures(&mut self, body: &[Stmt], file_path: &PathBuf, line_index: &[usize],
-        declared_params: &HashSet<String>, function_name: &str, function_line: usize)
-        ensures
-            final(self).definitions == old(self).definitions, final(self).file_definitions == old(self).file_definitions,
-            final(self).usages == old(self).usages, final(self).usage_by_fixture == old(self).usage_by_fixture,
-            final(self).definitions_version == old(self).definitions_version,
-            final(self).file_cache == old(self).file_cache, final(self).imports == old(self).imports,
-            undecl_frame(old(self).undeclared_fixtures.m(), final(self).undeclared_fixtures.m(), pbv(file_path)),
-    { unimplemented!() }
+    // undeclared.rs scan_function_body_for_undeclared_fixtures: the contract PROVED in unit undeclared_scan (the findings
+    // pushed onto undeclared_fixtures[file_path] are exactly scan_fn(..); nothing else changes) -- the frame formerly
+    // ASSUMED here is a consequence of it
+//@stub undeclared_scan scan_function_body_for_undeclared_fixtures
     /// the iterator all_args returns, collected (a `for` over an opaque `impl Iterator` has no loop specification in
     /// this Verus).  ASSUMED: collecting yields the sequence all_args is PROVED to return (extract block below).
     #[verifier::external_body]
